@@ -12,7 +12,7 @@
 // events (besides the shim's own): call onend id / ret onend id, call flush / ret flush r, call shutdown / ret shutdown r,
 //   expbegin id.. / expend r, expflush r, expshutdown r, buf add id r, buf size n, buf empty e, buf consume n,
 //   call destroy / ret destroy.
-// summary: X <ids in the order the exporter received them> B <batch sizes> F <flush results in script order per thread>
+// summary: X <ids in the order the exporter received them> B <batch sizes> F <flush results in the order the calls returned>
 //          H <shutdown results> S <number of exporter Shutdown calls>   (leaks / double frees: ASan + LeakSanitizer)
 #include <memory>
 #include <set>
@@ -202,7 +202,7 @@ void run_batch(const std::vector<std::vector<Tok>> &secs, bool is_span, Out &o)
   // the constructor spawns the worker: logical thread 0
   Proc *proc = new Proc(std::unique_ptr<ExpBase>(new Exp(sh)), opt);
   proc->name_objects();
-  std::vector<std::vector<int>> fres(scripts.size()), hres(scripts.size());
+  std::vector<int> fres, hres;   // in the order the calls returned
   std::vector<int> app_tids;
   for (size_t t = 0; t < scripts.size(); t++)
   {
@@ -224,7 +224,7 @@ void run_batch(const std::vector<std::vector<Tok>> &secs, bool is_span, Out &o)
           S.log("call flush");
           bool r = us > 0 ? proc->ForceFlush(std::chrono::microseconds(us)) : proc->ForceFlush();
           S.log(std::string("ret flush ") + (r ? "1" : "0"));
-          fres[t].push_back(r);
+          fres.push_back(r);
         }
         else if (sc[i].is_tag("h") && i + 1 < sc.size())
         {
@@ -232,7 +232,7 @@ void run_batch(const std::vector<std::vector<Tok>> &secs, bool is_span, Out &o)
           S.log("call shutdown");
           bool r = us > 0 ? proc->Shutdown(std::chrono::microseconds(us)) : proc->Shutdown();
           S.log(std::string("ret shutdown ") + (r ? "1" : "0"));
-          hres[t].push_back(r);
+          hres.push_back(r);
         }
       }
     });
@@ -256,11 +256,9 @@ void run_batch(const std::vector<std::vector<Tok>> &secs, bool is_span, Out &o)
   o.tag("B");
   for (int b : sh.batches) o.num(b);
   o.tag("F");
-  for (auto &v : fres)
-    for (int r : v) o.num(r);
+  for (int r : fres) o.num(r);
   o.tag("H");
-  for (auto &v : hres)
-    for (int r : v) o.num(r);
+  for (int r : hres) o.num(r);
   o.tag("S").num(sh.shutdown_calls);
   o.tag("||");
   o.add(S.log_line());
